@@ -509,6 +509,45 @@ fn s8_case(line: &str) -> Vec<String> {
     out
 }
 
+// ---------------------------------------------------------------- steering with the original history (aliasing preserved)
+/// `path=OP;OP;..` (the opcodes a traced run emitted before the disagreeing step) is applied through the hook `emit_one` -
+/// same opcodes, hence the same aliasing between cells, arguments drawn from zeros -, then `final=OP` must be among the
+/// candidates the implementation offers and is emitted, then the collapse tail and STOP: CASE / RESULT ok <whole output> / END
+fn steer_case(line: &str) -> Vec<String> {
+    let m = kv(line);
+    let mut out = vec![format!("CASE {}", line)];
+    let mut g = mk_generator(&m);
+    let empty: [u8; 0] = [];
+    let r = catch_unwind(AssertUnwindSafe(|| {
+        let mut u0 = arbitrary::Unstructured::new(&empty);
+        let mut s0 = GenerationSource::Arbitrary(&mut u0);
+        pf::verif::begin(&mut g, &mut s0);
+        if m["path"] != "-" {
+            for op in m["path"].split(';') {
+                let mut u = arbitrary::Unstructured::new(&empty);
+                let mut src = GenerationSource::Arbitrary(&mut u);
+                pf::verif::emit_one(&mut g, op, &mut src).map_err(|e| format!("{}: {}", op, e))?;
+            }
+        }
+        let norm = |n: &str| n.replace('_', "").to_lowercase();
+        if !pf::verif::valid_opcodes(&g).iter().any(|o| norm(o) == norm(&m["final"])) {
+            return Err("NOREPRO".to_string());
+        }
+        let mut u = arbitrary::Unstructured::new(&empty);
+        let mut src = GenerationSource::Arbitrary(&mut u);
+        pf::verif::emit_one(&mut g, &m["final"], &mut src)?;
+        pf::verif::finish(&mut g);
+        Ok(g.output.clone())
+    }));
+    match r {
+        Ok(Ok(bytes)) => out.push(format!("RESULT ok {}", hex(&bytes))),
+        Ok(Err(e)) => out.push(format!("RESULT norepro {}", e.replace(' ', "_"))),
+        Err(e) => out.push(format!("RESULT panic {}", panic_msg(e).replace('\n', " "))),
+    }
+    out.push("END".into());
+    out
+}
+
 // ---------------------------------------------------------------- S5: call histories on one generator
 fn hist_case(line: &str) -> Vec<String> {
     let m = kv(line);
@@ -922,6 +961,7 @@ fn main() {
         Some("adapt") => cmd_lines(&a[2], adapt_case),
         Some("hist") => cmd_lines(&a[2], hist_case),
         Some("s8") => cmd_lines(&a[2], s8_case),
+        Some("steer") => cmd_lines(&a[2], steer_case),
         Some("words") => cmd_words(a[2].parse().unwrap(), a[3].parse().unwrap()),
         _ => {
             eprintln!("usage: pf-harness trace <cases> [threads] | adapt <cases> | hist <cases> | words <seed> <n>");
